@@ -160,6 +160,12 @@ Proof.
   destruct H as [Hf H2].
   apply (near_sound _ _ _ (zerr_code_encl _ _ (finite_b_has _ Hf) (two_b_len _ H2) (lw_encl s)) H3).
 Qed.
+Theorem check_u_sound s y : check_u p s y = true -> crit_ok (u_R (lw_R s)) y.
+Proof.
+  unfold check_u. intros H. apply andb_prop in H. destruct H as [H H3]. apply andb_prop in H.
+  destruct H as [Hf H2].
+  apply (near_sound _ _ _ (u_encl _ _ (finite_b_has _ Hf) (two_b_len _ H2) (lw_encl s)) H3).
+Qed.
 Theorem check_dz_sound s sp y : check_dz p s sp y = true -> crit_ok (dz_R (lw_R s) (lw_R sp)) y.
 Proof.
   unfold check_dz. intros H. apply andb_prop in H. destruct H as [H H3]. apply andb_prop in H.
@@ -186,6 +192,7 @@ Proof.
   - apply check_ess_sound.
   - apply check_frac_sound.
   - apply check_zerr_code_sound.
+  - apply check_u_sound.
   - apply check_dz_sound.
   - apply check_ratio_sound.
   - apply check_stdcond_sound.
